@@ -82,11 +82,14 @@ def compare_with_spec(cases, H, style_seed=None, extra_text=""):
     """
     lines, metas = [], []
     for idx, rules in enumerate(cases):
+        Hcase = H
+        if isinstance(rules, tuple) and len(rules) == 3 and rules[0] == "H":
+            Hcase, rules = rules[1], rules[2]           # a case with its own horizon
         atoms = atoms_of_rules(rules)
         style = random.Random(style_seed * 1000003 + idx) if style_seed is not None else None
         text = tl.render_prog(rules, style) + extra_text
         # the brute-force enumerator is exponential in atoms x states: keep every instance within MAX_BITS
-        Hc = min(H, MAX_BITS // max(1, len(atoms)) - 1)
+        Hc = min(Hcase, MAX_BITS // max(1, len(atoms)) - 1)
         if Hc < 0:
             continue
         metas.append((idx, rules, atoms, text, Hc, len(lines)))
